@@ -23,7 +23,8 @@ ASSUMPTIONS = [
     'the harness catches it and only requires that the target keeps a valid value and mirrors again once the value is valid',
     'sync watchers are recognised structurally (bound method _sync_refs whose owner namespace belongs to the target)',
 ]
-REQUIRED = {'mirror_checks': 8000, 'source_updates': 2000, 'overrides': 300, 'relinks': 300, 'nested_links': 200, 'leak_checks': 3000, 'triggers': 100}
+REQUIRED = {'mirror_checks': 8000, 'source_updates': 2000, 'overrides': 300, 'relinks': 300, 'nested_links': 200, 'leak_checks': 3000, 'triggers': 100,
+            'same_reference_reassigned': 20}
 
 _st = {}
 _n = [0]
@@ -76,7 +77,18 @@ def make_ref(rng, srcs, tparam):
         if rng.random() < 0.5:
             return {'k': inner, 'c': 3}, (lambda: {'k': ev(), 'c': 3}), f'dict[{kind}]', deps
         return {'k': (inner, inner2)}, (lambda: {'k': (ev(), ev2())}), f'dict[({kind},{kind2})]', deps | deps2
-    c = rng.randrange(8)
+    c = rng.randrange(10)
+    if c == 8:
+        # a bound function whose keyword arguments are themselves references (bound functions / reactive expressions)
+        f2 = lambda p, q: p - q     # noqa: E731
+        g = lambda a: a * 3         # noqa: E731
+        h = lambda a: a + 1         # noqa: E731
+        return (param.bind(f2, p=param.bind(g, s.param[pn]), q=param.bind(h, s2.param[pn2])),
+                (lambda: getattr(s, pn) * 3 - (getattr(s2, pn2) + 1)), 'bind-kw-nested-bind', {(i, pn), (j, pn2)})
+    if c == 9:
+        f2 = lambda p, q: p - q     # noqa: E731
+        return (param.bind(f2, q=s2.param[pn2].rx() * 2, p=s.param[pn].rx() + 1),
+                (lambda: getattr(s, pn) + 1 - getattr(s2, pn2) * 2), 'bind-kw-nested-rx', {(i, pn), (j, pn2)})
     if c == 6:
         # references that have no value for some source values (division by zero): the failing source assignment raises,
         # the next valid one must bring the link up to date again
@@ -141,6 +153,7 @@ def run_case(idx, rng, P, rep):
     srcs = [Src(v=fresh(), w=fresh()) for _ in range(3)]
     ntg = rng.randint(1, 2)
     links = [dict() for _ in range(ntg)]        # per target: pname -> (ev, kind, deps)
+    refobjs = [dict() for _ in range(ntg)]      # per target: pname -> the reference object handed over (list links)
     plain = [dict() for _ in range(ntg)]
     targets = []
     trace = []
@@ -152,6 +165,7 @@ def run_case(idx, rng, P, rep):
                 ref, ev, kind, deps = make_ref(rng, srcs, tp)
                 if valid_for(tp, safe(ev)):
                     kw[tp] = ref
+                    refobjs[ti][tp] = ref
                     links[ti][tp] = (ev, kind, deps)
                     kinds_used.add(kind)
                     trace.append(('ctor-link', ti, tp, kind))
@@ -259,7 +273,21 @@ def run_case(idx, rng, P, rep):
             rep.count('relinks')
             if tp in ('l', 'd'):
                 rep.count('nested_links')
+            grow = tp == 'l' and tp in links[ti] and isinstance(refobjs[ti].get(tp), list) and rng.random() < 0.5
+            if grow:
+                old_ev, old_kind, old_deps = links[ti][tp]
+                inner, ev3, kind3, deps3 = make_ref(rng, srcs, 'y')
+                grow = safe(old_ev) is not RAISES and valid_for('y', safe(ev3))
+            if grow:
+                # the SAME list of references, extended in place and assigned again
+                ref = refobjs[ti][tp]
+                ref.append(inner)
+                ev = (lambda old_ev=old_ev, ev3=ev3: old_ev() + [ev3()])
+                kind, deps = old_kind.split('+')[0] + '+grown-in-place', old_deps | deps3
+                steps[-1] = 'reassign-same-reference'
+                rep.count('same_reference_reassigned')
             setattr(t, tp, ref)
+            refobjs[ti][tp] = ref
             links[ti][tp] = (ev, kind, deps)
             plain[ti].pop(tp, None)
             unspec[ti].discard(tp)
@@ -282,31 +310,49 @@ def run_case(idx, rng, P, rep):
             plain[ti][tp] = v
             unspec[ti].discard(tp)
         elif c < 0.9:
-            # update used as a context manager: previous values and links are restored on exit
-            tp = rng.choice(['x', 'y', 'z'])
-            use_ref = rng.random() < 0.5
-            saved_link, saved_plain = links[ti].get(tp), plain[ti].get(tp)
-            had_plain = tp in plain[ti]
-            if use_ref:
-                ref, ev, kind, deps = make_ref(rng, srcs, tp)
-                if not valid_for(tp, safe(ev)):
-                    continue
-                val = ref
-            else:
-                val = {'x': fresh(), 'y': fresh(), 'z': ('tmp', fresh())}[tp]
+            # update used as a context manager: previous values and links are restored on exit. One or two
+            # parameters, handed over as keywords, as a positional mapping, as pairs, or split between both
+            tps = rng.sample(['x', 'y', 'z'], rng.choice([1, 1, 2]))
+            items = []
+            for tp in tps:
+                use_ref = rng.random() < 0.5
+                if use_ref:
+                    ref, ev, kind, deps = make_ref(rng, srcs, tp)
+                    if not valid_for(tp, safe(ev)):
+                        continue
+                    items.append(dict(tp=tp, val=ref, link=(ev, kind, deps)))
+                else:
+                    items.append(dict(tp=tp, val={'x': fresh(), 'y': fresh(), 'z': ('tmp', fresh())}[tp], link=None))
+            if not items:
+                continue
+            for it in items:
+                tp = it['tp']
+                it.update(saved_link=links[ti].get(tp), saved_plain=plain[ti].get(tp), had_plain=tp in plain[ti], before=getattr(t, tp))
+            form = rng.choice(['kw', 'mapping', 'pairs', 'split'])
             steps.append('update-context')
-            trace.append(('update-context', ti, tp, 'ref' if use_ref else 'plain'))
-            before = getattr(t, tp)
-            cm = t.param.update(**{tp: val})
+            trace.append(('update-context', ti, [(it['tp'], 'ref' if it['link'] else 'plain') for it in items], form))
+            rep.count('update_contexts_' + form)
+            kv = {it['tp']: it['val'] for it in items}
+            if form == 'kw':
+                cm = t.param.update(**kv)
+            elif form == 'mapping':
+                cm = t.param.update(dict(kv))
+            elif form == 'pairs':
+                cm = t.param.update(list(kv.items()))
+            else:
+                first = items[0]['tp']
+                cm = t.param.update({first: kv[first]}, **{k: v for k, v in kv.items() if k != first}) if len(items) > 1 \
+                    else t.param.update({}, **kv)
             ok_exit = True
             cm.__enter__()
             try:
-                if use_ref:
-                    links[ti][tp] = (ev, kind, deps)
-                    plain[ti].pop(tp, None)
-                else:
-                    links[ti].pop(tp, None)
-                    plain[ti][tp] = val
+                for it in items:
+                    if it['link']:
+                        links[ti][it['tp']] = it['link']
+                        plain[ti].pop(it['tp'], None)
+                    else:
+                        links[ti].pop(it['tp'], None)
+                        plain[ti][it['tp']] = it['val']
                 verify('inside update-context')
                 if rng.random() < 0.5:
                     si = rng.randrange(len(srcs))
@@ -324,19 +370,21 @@ def run_case(idx, rng, P, rep):
                     ok_exit = False
                     rep.count('update_context_restore_raised')
             # restored
-            links[ti].pop(tp, None)
-            plain[ti].pop(tp, None)
-            if not ok_exit:
-                murky[ti] |= (saved_link[2] if saved_link else set()) | (deps if use_ref else set())
-                unspec[ti].add(tp)
-            elif tp in unspec[ti]:
-                pass        # what was restored was itself unspecified
-            elif saved_link is not None:
-                links[ti][tp] = saved_link
-            elif had_plain:
-                plain[ti][tp] = saved_plain
-            else:
-                plain[ti][tp] = before
+            for it in items:
+                tp = it['tp']
+                links[ti].pop(tp, None)
+                plain[ti].pop(tp, None)
+                if not ok_exit:
+                    murky[ti] |= (it['saved_link'][2] if it['saved_link'] else set()) | (it['link'][2] if it['link'] else set())
+                    unspec[ti].add(tp)
+                elif tp in unspec[ti]:
+                    pass        # what was restored was itself unspecified
+                elif it['saved_link'] is not None:
+                    links[ti][tp] = it['saved_link']
+                elif it['had_plain']:
+                    plain[ti][tp] = it['saved_plain']
+                else:
+                    plain[ti][tp] = it['before']
         elif c < 0.95:
             # re-announcing the current value is not an assignment: a link must survive it
             tp = rng.choice(['x', 'y', 'z', 'l'])
